@@ -469,7 +469,8 @@ func TestVerif_C07_ExpiryEndToEnd(t *testing.T) {
 		}
 		nt := false
 		fetched := map[string]map[int64]bool{}    // key -> PXATs reported by fetches
-		fetchedAt := map[string]map[int64]int64{} // key -> PXAT -> virtual time of the call that reported it
+		fetchedAt := map[string]map[int64]int64{}
+		fetchedFrom := map[string]map[int64]int64{} // key -> PXAT -> virtual time of the call that reported it
 		for _, r := range run.Reads {
 			if r.Pos < 0 || r.Err != nil {
 				continue
@@ -487,10 +488,17 @@ func TestVerif_C07_ExpiryEndToEnd(t *testing.T) {
 					nt = true
 				}
 				live := false // an entry of this key populated by an earlier call is still valid and was not invalidated since
+				tie := false  // a write of this key shares its instant with the population or with this read: it may or may not have hit the entry
 				for px, at := range fetchedAt[r.Key] {
 					if px > startMs {
 						invalidated := false
 						for _, w := range run.Writes {
+							// the entry was populated at some instant of the populating call, not necessarily at its end (a batch
+							// returns when its slowest transaction has been answered): a write during that call, or at the very
+							// instant of this read, may or may not have removed the entry
+							if (w.Key == r.Key || w.Kind == "flushall") && (w.AtUs >= fetchedFrom[r.Key][px] && w.AtUs <= at || w.AtUs == r.StartUs) {
+								tie = true
+							}
 							if (w.Key == r.Key || w.Kind == "flushall") && w.AtUs > at && w.AtUs < r.StartUs {
 								if w.Kind == "expire" {
 									// only an expiry of the version that is still current removes the key
@@ -508,8 +516,16 @@ func TestVerif_C07_ExpiryEndToEnd(t *testing.T) {
 					}
 				}
 				if live {
-					if !fetched[r.Key][r.PXAT] {
+					if !fetched[r.Key][r.PXAT] && !tie {
 						c.Fail(rt, "C07.hit-reports-entry-expiry", fmt.Sprintf("%s: the hit reports expiry +%dms, but the entries of that key populated so far expire at %v", where, r.PXAT-run.EpochMs, fetched[r.Key]), plan)
+					}
+					// (with a tie and an unknown expiry nothing can be asserted: the tied write may have removed the entry and this
+					// call populated it again; remember the expiry it reports as a population of this call)
+					if !fetched[r.Key][r.PXAT] {
+						if fetched[r.Key] == nil {
+							fetched[r.Key], fetchedAt[r.Key], fetchedFrom[r.Key] = map[int64]bool{}, map[int64]int64{}, map[int64]int64{}
+						}
+						fetched[r.Key][r.PXAT], fetchedAt[r.Key][r.PXAT], fetchedFrom[r.Key][r.PXAT] = true, r.EndUs, r.StartUs
 					}
 					continue
 				}
@@ -552,6 +568,10 @@ func TestVerif_C07_ExpiryEndToEnd(t *testing.T) {
 				fetchedAt[r.Key] = map[int64]int64{}
 			}
 			fetchedAt[r.Key][r.PXAT] = r.EndUs // the reply arrived now; it reflects every write executed before
+			if fetchedFrom[r.Key] == nil {
+				fetchedFrom[r.Key] = map[int64]int64{}
+			}
+			fetchedFrom[r.Key][r.PXAT] = r.StartUs
 		}
 		c.Eval(nt, cKey(plan), "store="+plan.Store)
 		c.Sample(nt, func() any { return plan })
